@@ -153,6 +153,37 @@ Theorem C13_full_for_output : forall es bd pkg D,
 Proof. exact c13_full. Qed.
 Print Assumptions C13_full_for_output.
 
+(* histories of ONE source file: only the first and the last version must be valid - the
+   intermediate versions need not compile (seq_ok of C13_full asks every intermediate bundle
+   to be valid because its single step replaces one file; here the whole sequence is one step) *)
+Theorem C13_single_file_histories : forall es bd pkg k f,
+  valid bd = true -> nth_error bd k = Some (BJ f) -> (forall e, In e es -> edit_target e = k) ->
+  valid (apply_edits bd es) = true ->
+  (exists x, In x bd /\ bfile_pkg x = pkg) ->
+  exists D D', compile bd pkg = Ok D /\ compile (apply_edits bd es) pkg = Ok D' /\ files_ext D D'.
+Proof. exact c13_single_file. Qed.
+Print Assumptions C13_single_file_histories.
+
+(* ... non-vacuity with an invalid intermediate version: `object Foo { field a string }`, then a
+   field referring to Bar (not declared yet: the package does not compile), then `object Bar` *)
+Example C13_history_through_invalid_version :
+  let bd := [BJ (mkJfile [b "foo"; b "v1"] (b "a") []
+               [EObject (b "Foo") (mkprops [Property (b "a") false false (FScalar SString)]) NNil])] in
+  let es := [EAppendField 0 0 (Property (b "bar") false false (FObjRef (mkRef [] (b "Bar"))));
+             EAppendDecl 0 (EObject (b "Bar") (mkprops [Property (b "x") false false (FScalar SString)]) NNil)] in
+  valid bd = true /\ valid (apply_edits bd (firstn 1 es)) = false /\ valid (apply_edits bd es) = true /\
+  exists D D', compile bd (b "foo.v1") = Ok D /\ compile (apply_edits bd es) (b "foo.v1") = Ok D' /\ files_ext D D'.
+Proof.
+  cbv zeta. split; [vm_compute; reflexivity|]. split; [vm_compute; reflexivity|]. split; [vm_compute; reflexivity|].
+  eapply C13_single_file_histories with (k := 0%nat).
+  - vm_compute. reflexivity.
+  - reflexivity.
+  - intros e [<-|[<-|[]]]; reflexivity.
+  - vm_compute. reflexivity.
+  - eexists. split; [left; reflexivity|vm_compute; reflexivity].
+Qed.
+Print Assumptions C13_history_through_invalid_version.
+
 (* the boolean test the correspondence evaluates on the REAL descriptors before and after every
    generated edit list (J5sCorr.c13_check) is sound for the embedding relation of C13_full *)
 Theorem C13_embedding_checker_sound : forall D D', files_ext_b D D' = true -> files_ext D D'.
